@@ -1,4 +1,5 @@
 """Driver for the repr suite (C20).   replay <cases.json> <out.json> | values <out.json>"""
+import itertools
 import json
 import math
 import re
@@ -232,6 +233,35 @@ def values(out_path):
                                         F.add("footer_dtype", case, hdr[:1], toks, what="table header dtype row")
                                 elif [x.strip() for x in tok.split(",")] not in (toks, [toks[0]] if len(set(toks)) == 1 else toks):
                                     F.add("footer_dtype", case, tok, toks, what="table")
+    # "never misstates ... data": two short vectors / tables that differ in ONE visible cell never print alike, and the cell
+    # of a (left-aligned) text column shows the stored text, leading blanks included.  Trailing blanks are lost in the padding
+    # of the column, so pairs that differ only there are not compared.
+    distinct = {"str": ["x", "  x", " x", "x y", "x  y", "    ", "", "X", "x.", "None", "1"], "int": [0, 1, -1, 10, 10 ** 30, -(10 ** 30)],
+                "bool": [True, False], "date": [date(2020, 2, 29), date(2020, 2, 28), date(1, 1, 1)], "float": [1.5, -1.5, 2.5, 0.0, float("inf")]}
+    for tag, vals in distinct.items():
+        for a, b in itertools.combinations(vals, 2):
+            if tag == "str" and a.rstrip() == b.rstrip():
+                continue
+            for other in ([vals[0], vals[1]], [vals[1], None]):
+                for what in ("vector", "table"):
+                    def show(x):
+                        data = [other[0], x, other[1]]
+                        return repr(Vector(list(data), name="c")) if what == "vector" else repr(Table({"c": list(data), "k": ["p", "q", "r"]}))
+                    sa, ra, ea = attempt(lambda: show(a))
+                    sb, rb, eb = attempt(lambda: show(b))
+                    ex += 1
+                    case = {"dtype": tag, "cell a": repr(a), "cell b": repr(b), "what": what, "neighbours": repr(other)}
+                    if sa != "ok" or sb != "ok":
+                        F.add("repr_raises", case, repr(ea or eb)[:80], "a string", what=what)
+                    elif ra == rb:
+                        F.add("repr_data", case, ra, "two different pictures: the data differ in a visible cell")
+                    elif tag == "str":
+                        # the text itself, at the start of its line (text columns are left-aligned, the first column starts the line)
+                        for val, pic in ((a, ra), (b, rb)):
+                            lines = pic.split("\n")
+                            body = [ln for ln in lines if ln.startswith(val) and (val.strip() or ln[:len(val)] == val)]
+                            if val.strip() and not body:
+                                F.add("repr_data", case, pic, "a body line starting with the stored text " + repr(val))
     # nested vectors of unequal length inside an object vector
     for inner in ([Vector([1, 2]), Vector([1, 2, 3])], [Vector([]), Vector([1])], [Vector(["a"]), 5, None]):
         case = {"dtype": "object", "special": "nested vectors", "n": len(inner)}
